@@ -157,6 +157,23 @@ class Gen:
                             [Flow('Z', 'CTL', [Dep('in', TT(Bn, 'Z', k, jr), guard=guard)])]))
         return Pn
 
+    def reduce_utt(self):
+        """reduction tree followed by a CTL-only END task that triggers the termination of a user-triggered taskpool (C12 on
+        real MPI).  The triggering task must have nothing left to do (no data output), as in tests/.../utt.jdf."""
+        r = self.r; P = self.P
+        name = self.reduce()
+        tc = P.cls(name)
+        H = max(p[0] for p, e in tc.enumerate(dict(P.globals)))
+        En = self.cname('END')
+        kb = P.alloc_keys(1)
+        l, i = V('l'), V('i')
+        tc.flows.append(Flow('T', 'CTL', [Dep('out', TT(En, 'T', 0), guard=l.eq(H))]))
+        end = TaskClass(En, [Param('z', 'range', Rng(0, 0))], kb, [Flow('T', 'CTL', [Dep('in', TT(name, 'T', H, 0))])])
+        end.body_extra = '    this_task->taskpool->tdm.module->taskpool_set_nb_tasks(this_task->taskpool, 0);'
+        P.add(end)
+        P.options.append('%option termdet = "user-triggered"')
+        return name
+
     def reduce(self, H=None):
         """binary reduction tree R(l, i), l = 0..H, i = 0..(N>>l)-1, N = 2^H"""
         r = self.r; P = self.P
@@ -278,6 +295,7 @@ PROFILES = {
     'route': (dict(chain=2, fanout=4, reduce=3, wave=3, indep=0, gather=1), (1, 3)),
     'small': (dict(chain=2, fanout=2, reduce=1, wave=1, indep=1, gather=1), (1, 2)),
     'bcast': (dict(bcast=1), (1, 2)),
+    'utt':   (dict(reduce_utt=1), (1, 1)),
     'tiny':  (dict(chain=3, fanout=1, reduce=1, wave=1, indep=1, gather=1, empty=1), (1, 1)),
 }
 
